@@ -218,6 +218,58 @@ func main() {
 						}
 					}
 				}
+				// ... and with TWO visitors: thread a runs k steps and is parked, b runs as far as it can, then c, then
+				// a goes on (what a third party sees and does while a sits between two of its steps and b has been by)
+				for a := range steps {
+					if !(ii < len(sc.Corpus())+2 || (*tier == "thorough" && ii < len(sc.Corpus())+12)) {
+						break // two visitors: the corpus and the first 2 drawn instances (12 in the thorough tier)
+					}
+					for b := range steps {
+						for c := range steps {
+							if a == b || a == c || b == c {
+								continue
+							}
+							for k := 1; k < steps[a]; k++ {
+								a, b, c, k := a, b, c, k
+								done, stage := 0, 0
+								pick := func(en []int, _ int) int {
+									has := func(x int) bool {
+										for _, e := range en {
+											if e == x {
+												return true
+											}
+										}
+										return false
+									}
+									if stage == 0 {
+										if has(a) && done < k {
+											done++
+											return a
+										}
+										stage = 1
+									}
+									if stage == 1 {
+										if has(b) {
+											return b
+										}
+										stage = 2
+									}
+									if stage == 2 {
+										if has(c) {
+											return c
+										}
+										stage = 3
+									}
+									if has(a) {
+										return a
+									}
+									return en[0]
+								}
+								add(first(runOnce(inst, pick, "two-visitors")))
+							}
+						}
+					}
+				}
 			}
 			// exhaustive enumeration by DFS over choice prefixes, when small
 			if sc.Exhaustive(inst) && exhDone < *nExh {
